@@ -150,3 +150,41 @@ def noise_reads(ctx, rng, f, keys, p=0.3):
             k in f
         elif hasattr(f, "check_alt") and hasattr(f, "hashes"):
             f.check_alt(f.hashes(k))
+
+
+_HBUF = []
+
+
+def alt_arg(ctx, hashes):
+    """the hash list handed to an *_alt method: half of the time the caller's ONE scratch list, refilled in place for every call (the
+    library must neither keep a reference to it nor compare later arguments with it by identity), otherwise a fresh list.
+    Returns (argument, copy) - the copy is for arg_unchanged()."""
+    hashes = list(hashes)
+    ctx._alt_calls = getattr(ctx, "_alt_calls", 0) + 1
+    if (ctx._alt_calls // 4) % 2:  # runs of four calls with the scratch list, four with fresh lists
+        _HBUF[:] = hashes
+        ctx.count("alt_calls_with_the_reused_scratch_list")
+        return _HBUF, hashes
+    return list(hashes), hashes
+
+
+def arg_unchanged(ctx, arg, copy, what):
+    """a call must not modify the hash list it was given"""
+    if list(arg) != copy:
+        ctx.fail(f"{what} modified the hash list it was given", before=copy[:6], after=list(arg)[:6])
+
+
+def dense_fill(rng, targets, m, k, share=0.6):
+    """sets (through add_alt with hand-made hash lists) one random bit in every byte of the array in a random subset of `targets`
+    (each a list of filters that must receive the same additions), so that no byte of a LARGE array is all zero in every operand:
+    a set operation that drops a byte, a block or a tail then shows in the bits.  targets e.g. [[A, AB], [B, AB]]."""
+    nbytes = (m + 7) // 8
+    for group in targets:
+        pos = [8 * b + rng.randrange(min(8, m - 8 * b)) for b in range(nbytes) if rng.random() < share]
+        for i in range(0, len(pos), k):
+            grp = pos[i:i + k]
+            grp = grp + grp[: k - len(grp)] if len(grp) < k else grp
+            while len(grp) < k:
+                grp.append(grp[0])
+            for flt in group:
+                flt.add_alt(list(grp))
